@@ -14,7 +14,9 @@ RULE = ("cases = (parser specification, argv). Specifications: 6 fixed signature
         "signature sets; argv: EXHAUSTIVE over all token lists of length <=2 over the full alphabet derived from the contexts "
         "and of length 3 (thorough: 3 full, 4 reduced) over a reduced alphabet, plus random fuzz up to length 12. "
         "A case is non-trivial when the argv contains at least one token that is a task name/alias or a flag spelling "
-        "of one of the contexts; distinct = distinct (specification, argv) pairs")
+        "of one of the contexts; distinct = distinct (specification, argv) pairs. Plus an INTERLEAVING family: a parse that has "
+        "another complete parse in between two of its tokens (re-entrant from an argument's kind callable, or on a second "
+        "thread parked by an Event handshake), on the same or another Parser: each outcome must equal the outcome run alone")
 TRUSTED = ["Lean 4.33 kernel", "axioms propext/Classical.choice/Quot.sound only",
            "harness/props/c07.py correspondence + canonicalisation", "tools/extractors/parser.py (state table, dispatch probes)",
            "model Invoke/Model/Parser.lean hand-written, tied by correspondence on every run",
@@ -583,7 +585,133 @@ def check_case(bench, argv, with_repeat, other=None):
     return out1, why, exc
 
 
+# ------------------------------------------------------------------ parses interleaved with other parses
+
+TRIGGER = "PAUSE"
+_HOOK = {"fire": None}
+
+
+class Hooked(str):
+    """A str-like `kind` (kind = type(default), as for any task signature) whose construction from the trigger value runs a
+    hook once: this is how another parse gets to run IN BETWEEN two tokens of a parse that is in flight."""
+
+    def __new__(cls, value=""):
+        fire = _HOOK["fire"]
+        if value == TRIGGER and fire is not None:
+            _HOOK["fire"] = None
+            fire()
+        return super().__new__(cls, value)
+
+
+def hooked_parser(sig):
+    """real Parser for `sig` in which every str-typed value argument casts through `Hooked`;
+    -> (parser, [(task name, flag spelling or None for a positional)] where the trigger can be placed)"""
+    parser, initial, ctxs = build(sig)
+    spots = []
+    for c in ctxs:
+        for a in c.args.values():
+            if a.kind is str and not a.incrementable and not a.optional:
+                a.kind = Hooked
+                if a.positional and a.default is None:
+                    spots.append((c.name, None))
+                else:
+                    spots.append((c.name, flag_of(a.names[0])))
+    return parser, spots
+
+
+def interleave_case(case):
+    """Runs one interleaving case on the real code.  Returns (why|None, nontrivial)."""
+    p1, _ = hooked_parser(case["sig1"])
+    p2 = p1 if case["sig2"] == "same" else hooked_parser(case["sig2"])[0]
+    argv1, argv2 = case["argv1"], case["argv2"]
+    _HOOK["fire"] = None
+    alone1 = impl_parse(p1, argv1)[0]
+    alone2 = impl_parse(p2, argv2)[0]
+    box = {}
+
+    if case["mode"] == "reenter":
+        def fire():
+            box["r2"] = impl_parse(p2, argv2)[0]
+        _HOOK["fire"] = fire
+        try:
+            box["r1"] = common.with_timeout(lambda: impl_parse(p1, argv1)[0], 10)
+        finally:
+            _HOOK["fire"] = None
+    else:
+        import threading
+        parked, resume = threading.Event(), threading.Event()
+
+        def fire():
+            parked.set()
+            resume.wait(10)
+
+        def worker():
+            box["r1"] = impl_parse(p1, argv1)[0]
+        _HOOK["fire"] = fire
+        t = threading.Thread(target=worker, daemon=True)
+        try:
+            t.start()
+            if parked.wait(10):
+                box["r2"] = impl_parse(p2, argv2)[0]
+            else:
+                box["r2"] = "trigger-not-reached"
+        finally:
+            resume.set()
+            t.join(10)
+            _HOOK["fire"] = None
+    if "r2" not in box:
+        return None, False  # the trigger value never reached a cast (parse failed earlier): nothing was interleaved
+    nontrivial = alone1.startswith("OK:") and ("&" in alone1 or ":U" in alone1 and not alone1.split(":U")[1].startswith(":R"))
+    if box.get("r2") == "trigger-not-reached":
+        return None, False
+    if "r1" not in box:
+        return "the interleaved parse did not come back", nontrivial
+    if box["r1"] != alone1:
+        return ("a parse that had another parse (%s) in between gave %s, run alone it gives %s"
+                % (case["mode"], box["r1"][:300], alone1[:300])), nontrivial
+    if box["r2"] != alone2:
+        return ("a parse run in between another parse (%s) gave %s, run alone it gives %s"
+                % (case["mode"], box["r2"][:300], alone2[:300])), nontrivial
+    return None, nontrivial
+
+
+def interleave_cases(rng, n):
+    sigs = [s for s in FIXED if s["id"] in ("S1", "S3", "S4", "S6")]
+    extra = {"id": "I1", "initial": MINI_CORE, "ign": True, "tasks": [
+        {"name": "build", "params": [["pos"], ["label", "none"]]},
+        {"name": "clean", "params": []},
+        {"name": "deploy", "params": [["target", "prod"]]}]}
+    sigs = sigs + [extra, dict(extra, id="I2", ign=False, initial=None)]
+    out = []
+    while len(out) < n:
+        sig1 = rng.choice(sigs)
+        try:
+            _, spots = hooked_parser(sig1)
+            b1 = Bench(sig1)
+        except ValueError:
+            continue
+        if not spots:
+            continue
+        tname, fl = rng.choice(spots)
+        full1 = alphabet(b1.view, sig1.get("rich_initial", True))[0]
+        names = list(b1.view.names)
+        head = [tname] + ([fl, TRIGGER] if fl else [TRIGGER])
+        tail = []
+        for _ in range(rng.randint(1, 3)):
+            tail += structured_argv(b1, full1, rng) if rng.random() < 0.6 else [rng.choice(names + full1[:6])]
+        sig2 = "same" if rng.random() < 0.35 else rng.choice(sigs)
+        b2 = b1 if sig2 == "same" else Bench(sig2)
+        full2 = alphabet(b2.view, b2.sig.get("rich_initial", True))[0]
+        argv2 = structured_argv(b2, full2, rng)
+        out.append({"kind": "interleave", "mode": rng.choice(["reenter", "threads"]), "sig1": sig1, "sig2": sig2,
+                    "argv1": head + tail, "argv2": argv2})
+    return out
+
+
 def replay(case):
+    if case.get("kind") == "interleave":
+        why, _ = interleave_case(case)
+        return why is None, why or "ok"
     bench = Bench(case["sig"])
     other = case.get("other")
     _, why, exc = check_case(bench, case["argv"], True, other)
@@ -745,4 +873,15 @@ def run(ctx):
         full = alphabet(bench.view, sig.get("rich_initial", True))[0]
         argvs = [fuzz_argv(bench, full, rng) for _ in range(40)]
         run_bench(bench, argvs, ctx, out, drv, "fuzz")
+    # 3. parses interleaved with other parses (re-entrant from a kind callable; two threads with a deterministic handshake)
+    for case in interleave_cases(rng, ctx.n(400, 4000)):
+        try:
+            why, nontrivial = interleave_case(case)
+        except common.Hang:
+            why, nontrivial = "the interleaved parse hung", True
+        out.case(case, nontrivial)
+        out.hist["interleave:%s:%s%s" % (case["mode"], "same-parser" if case["sig2"] == "same" else "other-parser",
+                                          "" if nontrivial else ":trivial")] += 1
+        if why:
+            out.fail(case, why)
     return out
